@@ -288,22 +288,26 @@ Definition rc_ignore_broken (sc : stepcfg) : bool := rc_always sc.
 (* ---------------------------------------------------------------------------------------- *)
 (* one handler action ([PAct]): the s_* function of the current state                       *)
 (* ---------------------------------------------------------------------------------------- *)
+Definition slotmap := list (N * N).
+
+(* result of one handler action of thread [i]: what it does to its own thread record (state,
+   process) and to the slot counters; nothing else is written by a handler *)
 Inductive hres :=
-  | HNext (l : lstate) (s : gstate)     (* next state (sent by the next iteration), new global state *)
-  | HResend (s : gstate)                (* same state, but the handler loop iterates (sends it again) *)
-  | HPoll (s : gstate) (changed : bool) (* stays inside an inner polling loop *)
-  | HDie (panic : bool) (s : gstate).
+  | HNext (l : lstate) (p : pstate) (sl : slotmap)   (* next state (sent by the next iteration), own process, slot counters *)
+  | HResend                                          (* same state, but the handler loop iterates (sends it again) *)
+  | HPoll (p : pstate) (changed : bool)              (* stays inside an inner polling loop *)
+  | HDie (panic : bool) (p : pstate) (sl : slotmap). (* the thread ends without a terminal state *)
 
 Definition bull_of (s : gstate) (j : step) : lstate :=
   match tget (thr s) j with Some t => bull t | None => lbegin end.
 
-Definition goto (s : gstate) (st : sstate) (e : event) : hres := HNext (st, Some e) s.
+Definition goto (s : gstate) (t : thread) (st : sstate) (e : event) : hres := HNext (st, Some e) (proc t) (slots s).
 
-Definition compare_outcome (cfg : config) (s : gstate) (v : verdict) (changed same : hres) : hres :=
+Definition compare_outcome (cfg : config) (s : gstate) (t : thread) (v : verdict) (changed same : hres) : hres :=
   match v with
   | VChanged => changed
   | VSame => same
-  | VError => if fixed_P14 cfg then goto s Broken HasMissingDependencies else HDie true s
+  | VError => if fixed_P14 cfg then goto s t Broken HasMissingDependencies else HDie true (proc t) (slots s)
   end.
 
 Definition handler (cfg : config) (s : gstate) (sc : stepcfg) (t : thread) : hres :=
@@ -311,91 +315,95 @@ Definition handler (cfg : config) (s : gstate) (sc : stepcfg) (t : thread) : hre
   let deps := deps_of cfg sc in
   match loc t with
   | (Begin, None) =>
-      if rc_never sc then goto s DoneWithoutRunning RunNever
-      else goto s WaitingDependencySteps RunConditional
+      if rc_never sc then goto s t DoneWithoutRunning RunNever
+      else goto s t WaitingDependencySteps RunConditional
   | (WaitingDependencySteps, Some RunConditional) =>
       match deps with
-      | [] => goto s CheckingOutputs DependencyStepsFinishedSuccessfully
-      | _ => goto s WaitingDependencySteps DependencyStepsRunning
+      | [] => goto s t CheckingOutputs DependencyStepsFinishedSuccessfully
+      | _ => goto s t WaitingDependencySteps DependencyStepsRunning
       end
   | (WaitingDependencySteps, Some DependencyStepsRunning) =>
       let ds := map (bull_of s) deps in
       let broken_branch :=
-        if rc_ignore_broken sc then goto s CheckingOutputs DependencyStepsFinishedBrokenIgnored
-        else goto s Broken DependencyStepsFinishedBroken in
-      if forallb is_done ds then goto s CheckingOutputs DependencyStepsFinishedSuccessfully
+        if rc_ignore_broken sc then goto s t CheckingOutputs DependencyStepsFinishedBrokenIgnored
+        else goto s t Broken DependencyStepsFinishedBroken in
+      if forallb is_done ds then goto s t CheckingOutputs DependencyStepsFinishedSuccessfully
       else if forallb is_broken ds then broken_branch
       else if fixed_P12 cfg && forallb is_terminal ds then broken_branch
-      else HPoll s false
+      else HPoll (proc t) false
   | (CheckingOutputs, Some _) =>
       (* ignore_missing_outputs is true for every step that gets here; compare_output cannot fail *)
-      goto s CheckingSuperficialDiffs CheckedOutputs
+      goto s t CheckingSuperficialDiffs CheckedOutputs
   | (CheckingSuperficialDiffs, Some _) =>
-      if negb (has_dep_records sc) then goto s CheckingThoroughDiffs SuperficialDiffsChanged
-      else compare_outcome cfg s (s_sup sc)
-             (goto s CheckingThoroughDiffs SuperficialDiffsChanged)
-             (goto s ComparingDiffsAndOutputs SuperficialDiffsNotChanged)
+      if negb (has_dep_records sc) then goto s t CheckingThoroughDiffs SuperficialDiffsChanged
+      else compare_outcome cfg s t (s_sup sc)
+             (goto s t CheckingThoroughDiffs SuperficialDiffsChanged)
+             (goto s t ComparingDiffsAndOutputs SuperficialDiffsNotChanged)
   | (CheckingThoroughDiffs, Some _) =>
-      if negb (has_dep_records sc) then goto s ComparingDiffsAndOutputs ThoroughDiffsChanged
+      if negb (has_dep_records sc) then goto s t ComparingDiffsAndOutputs ThoroughDiffsChanged
       else match s_thor sc with
-           | VChanged => goto s ComparingDiffsAndOutputs ThoroughDiffsChanged
-           | VSame => goto s ComparingDiffsAndOutputs ThoroughDiffsNotChanged
-           | VError => HDie true s          (* uwr! around thorough_compare_dependency *)
+           | VChanged => goto s t ComparingDiffsAndOutputs ThoroughDiffsChanged
+           | VSame => goto s t ComparingDiffsAndOutputs ThoroughDiffsNotChanged
+           | VError => HDie true (proc t) (slots s)          (* uwr! around thorough_compare_dependency *)
            end
-  | (ComparingDiffsAndOutputs, Some ThoroughDiffsChanged) => goto s WaitingToRun DiffsHasChanged
-  | (ComparingDiffsAndOutputs, Some ThoroughDiffsNotChanged) =>
-      if rc_always sc then goto s WaitingToRun RunAlways
-      else goto s DoneWithoutRunning DiffsHasNotChanged       (* output_diffs is never populated *)
-  | (ComparingDiffsAndOutputs, Some _) =>                     (* FromSuperficialDiffsNotChanged *)
-      if rc_always sc then goto s WaitingToRun RunAlways
-      else if existsb is_done_by_running (map (bull_of s) deps) then goto s WaitingToRun DiffsHasChanged
-      else goto s DoneWithoutRunning DiffsHasNotChanged
+  | (ComparingDiffsAndOutputs, Some ThoroughDiffsChanged) => goto s t WaitingToRun DiffsHasChanged
+  | (ComparingDiffsAndOutputs, Some _) =>
+      (* FromThoroughDiffsNotChanged and FromSuperficialDiffsNotChanged: the step's own dependencies
+         are unchanged; it still runs when a step it depends on has run in this pipeline run
+         (dependency_step_has_run; output_diffs is never populated) *)
+      if rc_always sc then goto s t WaitingToRun RunAlways
+      else if existsb is_done_by_running (map (bull_of s) deps) then goto s t WaitingToRun DiffsHasChanged
+      else goto s t DoneWithoutRunning DiffsHasNotChanged
   | (WaitingToRun, Some from) =>
       let v := slot_val cfg s i in
       if fix_atomic_acquire cfg then
-        if N.ltb 0 v then HNext (Running, Some StartProcess) (with_slots s (skey cfg i) (N.pred v))
+        (* try_acquire_process_slot: test and decrement under one write lock *)
+        if N.ltb 0 v then HNext (Running, Some StartProcess) (proc t) (upd (slots s) (skey cfg i) (N.pred v))
         else match from with
-             | ProcessPoolFull => HPoll s false             (* inner loop with a sleep, no message *)
-             | _ => goto s WaitingToRun ProcessPoolFull
+             | ProcessPoolFull => HPoll (proc t) false             (* inner loop with a sleep, no message *)
+             | _ => goto s t WaitingToRun ProcessPoolFull
              end
       else
-        if N.ltb 0 v then goto s Running StartProcess
+        if N.ltb 0 v then goto s t Running StartProcess
         else match from with
-             | ProcessPoolFull => HResend s                  (* busy loop, one state message per turn *)
-             | _ => goto s WaitingToRun ProcessPoolFull
+             | ProcessPoolFull => HResend                    (* busy loop, one state message per turn *)
+             | _ => goto s t WaitingToRun ProcessPoolFull
              end
   | (Running, Some StartProcess) =>
       let v := slot_val cfg s i in
       match s_proc sc with
       | CannotStart =>                                        (* command_process.run()? *)
-          if fix_atomic_acquire cfg then HDie false (with_slots s (skey cfg i) (N.succ v))
-          else HDie false s
+          if fix_atomic_acquire cfg then HDie false (proc t) (upd (slots s) (skey cfg i) (N.succ v))
+          else HDie false (proc t) (slots s)
       | Exits _ out err =>
-          let s1 := with_thr s i (set_proc t (PRunning out err 0 0)) in
-          if fix_atomic_acquire cfg then HNext (Running, Some WaitProcess) s1
-          else if N.eqb v 0 then HDie true s1                 (* usize underflow of `-= 1` *)
-          else HNext (Running, Some WaitProcess) (with_slots s1 (skey cfg i) (N.pred v))
+          let p1 := PRunning out err 0 0 in
+          if fix_atomic_acquire cfg then HNext (Running, Some WaitProcess) p1 (slots s)
+          else if N.eqb v 0 then HDie true p1 (slots s)       (* usize underflow of `-= 1` *)
+          else HNext (Running, Some WaitProcess) p1 (upd (slots s) (skey cfg i) (N.pred v))
       end
   | (Running, Some _) =>                                      (* FromWaitProcess *)
       match proc t with
       | Exited c =>
-          let s1 := with_slots s (skey cfg i) (N.succ (slot_val cfg s i)) in
-          if N.eqb c 0 then HNext (DoneByRunning, Some ProcessCompletedSuccessfully) s1
-          else HNext (Broken, Some ProcessReturnedNonZero) s1
+          let sl1 := upd (slots s) (skey cfg i) (N.succ (slot_val cfg s i)) in
+          if N.eqb c 0 then HNext (DoneByRunning, Some ProcessCompletedSuccessfully) (proc t) sl1
+          else HNext (Broken, Some ProcessReturnedNonZero) (proc t) sl1
       | PRunning o e ofl efl =>
           (* update_output_channels: blocks reading stdout until EOF, so stderr is not drained while
              the child lives; with the repair both pipes are drained *)
           let efl' := if fixed_P13 cfg then 0 else efl in
-          HPoll (with_thr s i (set_proc t (PRunning o e 0 efl')))
-                (negb (N.eqb ofl 0) || negb (N.eqb efl efl'))
-      | NotStarted => HDie false s                            (* "Cannot find process" *)
+          HPoll (PRunning o e 0 efl') (negb (N.eqb ofl 0) || negb (N.eqb efl efl'))
+      | NotStarted => HDie false (proc t) (slots s)           (* "Cannot find process" *)
       end
-  | _ => HPoll s false      (* terminal states never reach PAct; other pairs are not constructible *)
+  | _ => HPoll (proc t) false      (* terminal states never reach PAct; other pairs are not constructible *)
   end.
 
 (* ---------------------------------------------------------------------------------------- *)
 (* the small-step function                                                                  *)
 (* ---------------------------------------------------------------------------------------- *)
+Definition mk_thread l p st c b pr : thread :=
+  {| loc := l; ph := p; status := st; chan := c; bull := b; proc := pr |}.
+Definition mk_gstate th sl od : gstate := {| thr := th; slots := sl; outdead := od |}.
+
 (* second component: the transition is PROGRESS (false: polling stutter or busy re-send) *)
 Definition step_ex (cfg : config) (s : gstate) (x : tid) : option (gstate * bool) :=
   match x with
@@ -406,27 +414,19 @@ Definition step_ex (cfg : config) (s : gstate) (x : tid) : option (gstate * bool
       | TRun =>
         match ph t with
         | PSend =>
-          let t1 := set_chan t (chan t ++ [loc t]) in
-          if is_terminal (loc t) then Some (with_thr s i (set_status t1 TFin), true)
-          else Some (with_thr s i (set_loc t1 (loc t) PAct), true)
+          if is_terminal (loc t)
+          then Some (with_thr s i (mk_thread (loc t) PSend TFin (chan t ++ [loc t]) (bull t) (proc t)), true)
+          else Some (with_thr s i (mk_thread (loc t) PAct TRun (chan t ++ [loc t]) (bull t) (proc t)), true)
         | PAct =>
           match handler cfg s sc t with
-          | HNext l s1 =>
-            match tget (thr s1) i with
-            | Some t1 => Some (with_thr s1 i (set_loc t1 l PSend), true)
-            | None => None
-            end
-          | HResend s1 =>
-            match tget (thr s1) i with
-            | Some t1 => Some (with_thr s1 i (set_loc t1 (loc t1) PSend), false)
-            | None => None
-            end
-          | HPoll s1 changed => Some (s1, changed)
-          | HDie panic s1 =>
-            match tget (thr s1) i with
-            | Some t1 => Some (with_outdead (with_thr s1 i (set_status t1 (TDead panic))) (outdead s1 || panic), true)
-            | None => None
-            end
+          | HNext l p sl =>
+            Some (mk_gstate (upd (thr s) i (mk_thread l PSend TRun (chan t) (bull t) p)) sl (outdead s), true)
+          | HResend =>
+            Some (with_thr s i (mk_thread (loc t) PSend TRun (chan t) (bull t) (proc t)), false)
+          | HPoll p changed =>
+            Some (with_thr s i (mk_thread (loc t) PAct TRun (chan t) (bull t) p), changed)
+          | HDie panic p sl =>
+            Some (mk_gstate (upd (thr s) i (mk_thread (loc t) PAct (TDead panic) (chan t) (bull t) p)) sl (outdead s || panic), true)
           end
         end
       | _ => None
@@ -436,7 +436,7 @@ Definition step_ex (cfg : config) (s : gstate) (x : tid) : option (gstate * bool
   | Bulletin i =>
     match tget (thr s) i with
     | Some t => match chan t with
-                | x :: r => Some (with_thr s i (set_bull t x r), true)
+                | x :: r => Some (with_thr s i (mk_thread (loc t) (ph t) (status t) r x (proc t)), true)
                 | [] => None
                 end
     | None => None
@@ -548,12 +548,13 @@ Definition Known_mixed (cfg : config) : bool :=
 Definition Known_big_stderr (cfg : config) : bool :=
   existsb (fun sc => match s_proc sc with Exits _ _ err => N.ltb (c_cap cfg) err | CannotStart => false end) (c_steps cfg).
 
-(* P14: a step thread can end without a terminal state *)
-Definition Known_thread_error (cfg : config) : bool :=
-  existsb (fun sc => match s_proc sc with CannotStart => true | _ => false end ||
-                     (has_dep_records sc &&
-                      match s_sup sc, s_thor sc with VError, _ => true | _, VError => true | _, _ => false end))
-          (c_steps cfg).
+(* P14 / P14b: a step thread can end without a terminal state: popen fails, the thorough comparison
+   fails (uwr!), or -- before the repair of P14 -- the superficial comparison fails *)
+Definition is_verror (v : verdict) : bool := match v with VError => true | _ => false end.
+Definition thread_can_die (cfg : config) (sc : stepcfg) : bool :=
+  match s_proc sc with CannotStart => true | _ => false end ||
+  (has_dep_records sc && (is_verror (s_thor sc) || (negb (fixed_P14 cfg) && is_verror (s_sup sc)))).
+Definition Known_thread_error (cfg : config) : bool := existsb (thread_can_die cfg) (c_steps cfg).
 
 (* P16: a glob / glob-items dependency matches a declared output that is absent (glob) or not in
    the recorded item list (glob-items) *)
